@@ -780,7 +780,10 @@ def sym_cases(fn, target, limit=256, tables=None):
     def split(e):
         """[(conds, leaf)] of a (nested) conditional expression"""
         if isinstance(e, ast.IfExp):
-            return [([(e.test, True)] + c, l) for c, l in split(e.body)] + [([(e.test, False)] + c, l) for c, l in split(e.orelse)]
+            t, pos = e.test, True
+            while isinstance(t, ast.UnaryOp) and isinstance(t.op, ast.Not):
+                t, pos = t.operand, not pos
+            return [([(t, pos)] + c, l) for c, l in split(e.body)] + [([(t, not pos)] + c, l) for c, l in split(e.orelse)]
         return [([], e)]
 
     def go(todo, conds, env):
@@ -796,10 +799,13 @@ def sym_cases(fn, target, limit=256, tables=None):
         if isinstance(s, ast.If):
             t = sub(s.test, env)
             d = _const_truth(t)
+            pos = True
+            while isinstance(t, ast.UnaryOp) and isinstance(t.op, ast.Not):
+                t, pos = t.operand, not pos  # `not T` taken is T not taken
             if d is not False:
-                go(list(s.body) + rest, conds + ([(t, True)] if d is None else []), env)
+                go(list(s.body) + rest, conds + ([(t, pos)] if d is None else []), env)
             if d is not True:
-                go(list(s.orelse) + rest, conds + ([(t, False)] if d is None else []), env)
+                go(list(s.orelse) + rest, conds + ([(t, not pos)] if d is None else []), env)
             return
         if isinstance(s, (ast.Return, ast.Raise, ast.Continue, ast.Break)):
             return
@@ -841,6 +847,16 @@ def sym_cases(fn, target, limit=256, tables=None):
                     new[t_.id] = v_
                 go(rest, conds, new)
                 return
+            if isinstance(val, ast.IfExp):
+                # a, b = (x1, y1) if c else (x2, y2): one case per arm
+                leaves = split(val)
+                if all(isinstance(leaf, ast.Tuple) and len(leaf.elts) == len(s.targets[0].elts) for _c, leaf in leaves):
+                    for c, leaf in leaves:
+                        new = dict(env)
+                        for t_, v_ in zip(s.targets[0].elts, leaf.elts):
+                            new[t_.id] = v_
+                        go(rest, conds + c, new)
+                    return
             if isinstance(val, ast.Call):
                 # the elements of what a call returns: <call>[0], <call>[1], ...
                 new = dict(env)
